@@ -207,6 +207,34 @@ def parse_trace(path):
         res.setdefault(cid, []).append(d)
     return res
 
+HUNG = -999
+class _Done:
+    def __init__(self, rc, out): self.returncode, self.stdout = rc, out
+def run_watched(cmd, outfile, quiet_s=30.0):
+    """Run the harness; the trace file is flushed after every step, so a process whose trace has not grown for
+    [quiet_s] seconds is looping: it is killed and reported with return code HUNG (a violation, never a hung check)."""
+    import tempfile
+    with tempfile.TemporaryFile("w+") as so:
+        p = subprocess.Popen(cmd, stdout=so, stderr=subprocess.STDOUT, text=True)
+        last, t_last = -1, time.time()
+        while True:
+            try:
+                rc = p.wait(timeout=0.5)
+                break
+            except subprocess.TimeoutExpired:
+                pass
+            try: sz = os.path.getsize(outfile)
+            except OSError: sz = 0
+            now = time.time()
+            if sz != last:
+                last, t_last = sz, now
+            elif now - t_last > quiet_s:
+                p.kill(); p.wait()
+                rc = HUNG
+                break
+        so.seek(0)
+        return _Done(rc, so.read()[-4000:])
+
 RAN = set()    # ids of the cases the last run_batches handed to a harness binary
 SPEC = {}      # case id -> per step: the list specification's prediction (dict) or None (step outside the proven fragment)
 
@@ -258,16 +286,26 @@ def run_batches(cases, model_exe, routing, bindirs, workdir, tag):
         traces, died = {}, []
         todo = list(lines)
         attempt = 0
+        hangs = 0
         while todo:
+            if hangs >= 3:
+                # an implementation that keeps hanging: the remaining cases of the shard are reported as not run
+                for l in todo:
+                    cid = l.split(" ", 1)[0]
+                    traces[cid] = [{"_step": "0", "_raw": "<not run: the implementation hung %d times in this shard>" % hangs,
+                                    "viol": "process-hung_not-run"}]
+                break
             cf, of = "%s.r%d.case" % (base, attempt), "%s.r%d.impl" % (base, attempt)
             open(cf, "w").write("\n".join(todo) + "\n")
             try: os.remove(of)
             except OSError: pass
-            r = subprocess.run([exe, cf, of], stdout=subprocess.PIPE, stderr=subprocess.STDOUT, text=True)
+            r = run_watched([exe, cf, of], of)
             got = parse_trace(of)
             traces.update(got)
             if r.returncode == 0:
                 break
+            if r.returncode == HUNG:
+                hangs += 1
             # first case without an end line is the one that killed the process
             k = 0
             while k < len(todo):
@@ -280,8 +318,8 @@ def run_batches(cases, model_exe, routing, bindirs, workdir, tag):
             if k >= len(todo):
                 break
             cid = todo[k].split(" ", 1)[0]
-            traces[cid] = (got.get(cid) or []) + [{"_step": str(len(got.get(cid) or [])), "_raw": "<process died rc=%d>" % r.returncode,
-                                                   "viol": "process-died_rc=%d" % r.returncode}]
+            what = "process-hung" if r.returncode == HUNG else "process-died_rc=%d" % r.returncode
+            traces[cid] = (got.get(cid) or []) + [{"_step": str(len(got.get(cid) or [])), "_raw": "<%s>" % what, "viol": what}]
             died.append((cid, r.returncode, r.stdout[-600:]))
             todo = todo[k + 1:]
             attempt += 1
@@ -313,5 +351,5 @@ def run_single(case_line, exe, workdir, name):
     open(base + ".case", "w").write(case_line + "\n")
     try: os.remove(base + ".out")
     except OSError: pass
-    r = subprocess.run([exe, base + ".case", base + ".out"], stdout=subprocess.PIPE, stderr=subprocess.STDOUT, text=True)
+    r = run_watched([exe, base + ".case", base + ".out"], base + ".out")
     return r.returncode, parse_trace(base + ".out"), r.stdout
